@@ -54,7 +54,7 @@ ASSUMPTIONS = [
 BUDGET = {"quick": 150, "thorough": 900}
 
 PATHS = ["/etc/p", "/etc//q"]     # the second path is spelled with a doubled slash: legal, and not what os.path.normpath would write
-OUTPUTS = ["", "a", "a\n", "a\nb"]
+OUTPUTS = ["", "a", "a\n", "a\nb", "b\na"]     # the last two hold the same lines in another order
 RELOADS = ["", "r"]
 SAFES = [0, 1]
 PRIO_VALUES = [-10, 0, 50, 100, 150]    # any int is a legal prio (only compared / sorted); 0 and a negative one included
